@@ -53,6 +53,7 @@ type RealEnd struct {
 	Pool     *poolView
 	ReqSeen  *http.Request // server: the request as net/http (or the mini server) parsed it
 	Resp101  []byte
+	NetType  string // dynamic type of the net.Conn the library holds (reveals the brNetConn wrapper)
 	started  bool
 	done     chan struct{}
 }
@@ -288,6 +289,7 @@ func (rn *runner) upgrade(i int, w http.ResponseWriter, r *http.Request, sc *Sim
 		return
 	}
 	end.Conn = conn
+	end.NetType = fmt.Sprintf("%T", conn.NetConn())
 	end.Net = underlyingSim(conn.NetConn())
 	end.Negotiated = cfg.Compression && offersDeflate(r.Header)
 	rn.configure(end)
@@ -458,7 +460,14 @@ func (rn *runner) scriptedServer(i int, c *SimConn) {
 	var b bytes.Buffer
 	b.WriteString("HTTP/1.1 101 Switching Protocols\r\nUpgrade: websocket\r\nConnection: Upgrade\r\n")
 	b.WriteString("Sec-WebSocket-Accept: " + acceptKey(p.Key) + "\r\n")
-	if p.Negotiated {
+	switch {
+	case l.PeerComp == "server_only":
+		b.WriteString("Sec-WebSocket-Extensions: permessage-deflate; server_no_context_takeover\r\n")
+		p.Negotiated = false
+	case l.PeerComp == "client_only":
+		b.WriteString("Sec-WebSocket-Extensions: permessage-deflate; client_no_context_takeover\r\n")
+		p.Negotiated = false
+	case p.Negotiated:
 		b.WriteString("Sec-WebSocket-Extensions: permessage-deflate; server_no_context_takeover; client_no_context_takeover\r\n")
 	}
 	b.WriteString("\r\n")
@@ -485,7 +494,11 @@ func (rn *runner) scriptedClient(i int, t *Task) {
 	var b bytes.Buffer
 	b.WriteString("GET /x?y=1 HTTP/1.1\r\nHost: " + linkAddr(i) + "\r\nUpgrade: websocket\r\nConnection: Upgrade\r\n")
 	b.WriteString("Sec-WebSocket-Key: " + p.Key + "\r\nSec-WebSocket-Version: 13\r\n")
-	if l.PeerComp != "none" && l.Server != nil && l.Server.Compression {
+	if l.PeerExt != nil {
+		for _, v := range l.PeerExt {
+			b.WriteString("Sec-WebSocket-Extensions: " + v + "\r\n")
+		}
+	} else if l.PeerComp != "none" && l.Server != nil && l.Server.Compression {
 		b.WriteString("Sec-WebSocket-Extensions: permessage-deflate; server_no_context_takeover; client_no_context_takeover\r\n")
 	}
 	b.WriteString("\r\n")
